@@ -3,6 +3,7 @@ CONSTANTS
   NOps = 2
   MaxSend = 4
   Dev_NoTimerDrain = FALSE
+  Dev_NoEofRecheck = FALSE
   Dev_NoDoubleCheck = FALSE
 SPECIFICATION Spec
 INVARIANTS TypeOK
